@@ -5,12 +5,15 @@ import SaphyrVerif.Lemmas.C19Ast
 import SaphyrVerif.Lemmas.C19Literal
 import SaphyrVerif.Lemmas.C19Wf
 import SaphyrVerif.Lemmas.C19Token
+import SaphyrVerif.Lemmas.C19Complete
 /-!
 # C19 — robotics expressions evaluate totally and exactly; plain numbers are unchanged
 
 Property theorems about the model of `src/robotics.rs` / `parse_scalars.rs::parse_yaml12_float`
 (`Model/Robotics.lean`) over the IEEE-754 model `Model/F64.lean`.
-Helper lemmas: `Lemmas/C19*.lean`.  The model is the code AFTER the repairs bebcb49 (`starts_ci` compares
+Helper lemmas: `Lemmas/C19*.lean` (`C19Ast`: soundness against the grammar, `C19Pre` + `C19Complete`: the
+converse).  Further clauses (step count, frame count, tags for both widths, sexagesimal tokens):
+`Props/C19_More.lean`.  The model is the code AFTER the repairs bebcb49 (`starts_ci` compares
 bytes) and 78f916b (plain literals are returned as parsed); `Props/C19_Findings.lean` keeps the former
 counter-example witnesses as regression examples of the repaired behaviour.
 -/
@@ -385,10 +388,41 @@ theorem deg_fn_value (ws name ws1 ws' : List Nat) (e : Expr) :
     (Primary.fn ws true name ws1 e ws').eval = (mul F e.eval.1 DEG2RAD, true, false) ∧
     (Primary.fn ws false name ws1 e ws').eval = (e.eval.1, true, false) := ⟨rfl, rfl⟩
 
-/-- (T) `mixed_units_rejected`: a scalar accepted under `!degrees` never mixes unit constructs with bare
-terms outside them — its tree either uses no unit construct (then the tag converts) or has no bare term
-outside `deg(..)`/`rad(..)`. -/
-theorem mixed_units_rejected (s : List Nat) (v : Fl) (h : evalExpr TAG_DEGREES s = .ok v) :
+/-- (T) `eval_complete`, the converse of `eval_eq_ast`: EVERY tree of the grammar — any nesting of the
+four binary operators, sign chains, parentheses, `deg(..)`/`rad(..)`, constants and number-like tokens,
+with arbitrary white space, lexically well-formed, nested no deeper than `MAX_EXPR_DEPTH` — is accepted:
+on its rendering (between white space) the evaluator returns the reference IEEE evaluation of the tree,
+finished by the tag rule `topValue`; the only rejection is the `ambiguous mix` error, raised exactly when
+`topValue` is `none`.  Together with `eval_eq_ast`: the evaluator IS the reference evaluator on the
+language of the grammar, and rejects everything outside it. -/
+theorem eval_complete (tag : Nat) (s : List Nat) (e : Expr) (h : Parses tag s e) :
+    evalExpr tag s = match topValue tag e.eval with
+      | some v => .ok v
+      | none => .err .ambiguousMix 0 :=
+  Lemmas.C19.evalExpr_complete tag s e h
+
+/-- (T) `eval_iff_ast`: the evaluator accepts a scalar with value `v` EXACTLY when the scalar is the rendering
+of a tree of the grammar whose reference evaluation, finished by the tag rule, is `v` (soundness
+`eval_eq_ast` + completeness `eval_complete`). -/
+theorem eval_iff_ast (tag : Nat) (s : List Nat) (v : Fl) :
+    evalExpr tag s = .ok v ↔ ∃ e : Expr, Parses tag s e ∧ topValue tag e.eval = some v := by
+  constructor
+  · exact eval_eq_ast tag s v
+  · rintro ⟨e, hp, ht⟩
+    have := eval_complete tag s e hp
+    rw [ht] at this
+    exact this
+
+/-- (T) a scalar has only one reading: two trees of the same scalar (they can differ only in where white
+space is attached) have the same reference evaluation — the value and both unit flags. -/
+theorem parse_eval_unique (tag : Nat) (s : List Nat) (e e' : Expr) (h : Parses tag s e) (h' : Parses tag s e') :
+    e.eval = e'.eval :=
+  Lemmas.C19.parses_eval_unique tag s e e' h h'
+
+/-- (T) `mixed_units_rejected`, soundness form: a scalar accepted under `!degrees` never mixes unit
+constructs with bare terms outside them — its tree either uses no unit construct (then the tag converts)
+or has no bare term outside `deg(..)`/`rad(..)`. -/
+theorem mixed_units_rejected_accepted (s : List Nat) (v : Fl) (h : evalExpr TAG_DEGREES s = .ok v) :
     ∃ e : Expr, Parses TAG_DEGREES s e ∧ ¬ (e.usesUnit = true ∧ e.hasBare = true) := by
   obtain ⟨e, hp, ht⟩ := eval_eq_ast TAG_DEGREES s v h
   refine ⟨e, hp, ?_⟩
@@ -398,20 +432,104 @@ theorem mixed_units_rejected (s : List Nat) (v : Fl) (h : evalExpr TAG_DEGREES s
   unfold topValue at ht
   simp [hu, hb] at ht
 
-/-- The converse direction ("every tree that mixes is rejected", which needs that a scalar has only one
-tree) is not proved; what is proved is the reference semantics of the final check: -/
+/-- the reference semantics of the final check -/
 theorem mixed_units_spec (ev : Eval) (hu : ev.2.1 = true) (hb : ev.2.2 = true) : topValue TAG_DEGREES ev = none := by
   unfold topValue
   simp [hu, hb]
 
+/-- `mixed_units_rejected` at full strength: EVERY tree under `!degrees` that uses a unit construct
+(`deg(..)`, `rad(..)`, a sexagesimal form) and also has a bare number / constant outside the unit
+functions is rejected, whatever the rest of the expression. -/
 def mixed_units_rejected_Full : Prop :=
   ∀ (s : List Nat) (e : Expr), Parses TAG_DEGREES s e → e.usesUnit = true → e.hasBare = true →
     ∀ v, evalExpr TAG_DEGREES s ≠ .ok v
 
-/-! ## non-vacuity -/
+/-- (T) `mixed_units_rejected` (full): through `eval_complete` — the scalar has only the one reading. -/
+theorem mixed_units_rejected : mixed_units_rejected_Full := by
+  intro s e hp hu hb v hv
+  have h := eval_complete TAG_DEGREES s e hp
+  rw [mixed_units_spec e.eval hu hb] at h
+  rw [h] at hv
+  cases hv
+
+/-- (T) … and the error is the dedicated one: `ambiguous mix of unitized values and Degrees tag`. -/
+theorem mixed_units_error (s : List Nat) (e : Expr) (hp : Parses TAG_DEGREES s e) (hu : e.usesUnit = true)
+    (hb : e.hasBare = true) : evalExpr TAG_DEGREES s = .err .ambiguousMix 0 := by
+  have h := eval_complete TAG_DEGREES s e hp
+  rw [mixed_units_spec e.eval hu hb] at h
+  exact h
+
+/-- (T) conversely the `ambiguous mix` rejection happens ONLY for such trees, and only under `!degrees`:
+every other tree of the grammar is accepted. -/
+theorem accepted_unless_mixed (tag : Nat) (s : List Nat) (e : Expr) (hp : Parses tag s e)
+    (h : ¬ (tag = TAG_DEGREES ∧ e.usesUnit = true ∧ e.hasBare = true)) :
+    ∃ v, evalExpr tag s = .ok v ∧ topValue tag e.eval = some v := by
+  have hc := eval_complete tag s e hp
+  cases ht : topValue tag e.eval with
+  | some v => rw [ht] at hc; exact ⟨v, hc, rfl⟩
+  | none =>
+    exfalso
+    apply h
+    unfold topValue at ht
+    unfold Expr.usesUnit Expr.hasBare
+    cases hu : e.eval.2.1 <;> cases hb : e.eval.2.2 <;> simp [hu, hb] at ht ⊢
+    all_goals first | exact ht | (simp_all)
 
 /-- ASCII bytes of a string literal (for the examples) -/
 def bytes (s : String) : List Nat := s.toList.map Char.toNat
+
+/-! ### instances for the theorems about trees -/
+
+instance (l : List Nat) : Decidable (IsWs l) := by unfold IsWs; infer_instance
+
+/-- the token `90` denotes 90.0 in every context that ends it -/
+theorem tok90 (tag : Nat) (tm : Bool) (k : List Nat) (hk : StopsToken k) :
+    TokenOk tag tm [57, 48] k (ofNat F 90, false, true) := by
+  have := number_token_value tag tm ⟨[[57, 48]], none, none⟩
+    ⟨by simp [Groups.WF, isDigit], by simp, by simp,
+      ⟨by simp [NumTok.plain, Groups.digits, isDigit], by simp [NumTok.plain, PlainLit.fracDigits],
+       by simp [NumTok.plain, PlainLit.expDigits], by simp [NumTok.plain, Groups.digits], by simp [NumTok.plain]⟩⟩
+    (by decide) k hk
+  have hv : (NumTok.plain ⟨[[57, 48]], none, none⟩).value binary64 = ofNat F 90 := by decide
+  rw [hv] at this
+  exact this
+
+def n90 (ws : List Nat) : Primary := .atom ws [57, 48] (ofNat F 90, false, true)
+/-- the tree of `deg(90) + 90` -/
+def exMixed : Expr :=
+  .add (.term (.un (.mk [] [] (.fn [] true [100, 101, 103] [] (.term (.un (.mk [] [] (n90 [])))) []))))
+    [32] (.un (.mk [32] [] (n90 [])))
+
+/-- (E) the hypotheses of `eval_complete` / `mixed_units_rejected` are satisfiable: `deg(90) + 90` is a
+scalar of the grammar, its tree uses a unit function and has a bare term … -/
+theorem exMixed_parses (tag : Nat) : Parses tag (bytes "deg(90) + 90") exMixed := by
+  refine ⟨[], [], by decide, by decide, by decide, ?_, by decide⟩
+  simp only [exMixed, n90, Expr.lexOk, Term.lexOk, Unary.lexOk, Primary.lexOk, Term.render, Unary.render,
+    Primary.render]
+  exact ⟨⟨by decide, by decide, by decide, by decide, by decide, by decide, by decide,
+    tok90 _ _ _ (by simp [StopsToken, isDigit])⟩, by decide, by decide, by decide, tok90 _ _ _ (by simp [StopsToken])⟩
+
+example : exMixed.usesUnit = true ∧ exMixed.hasBare = true := by decide
+/-- … (E) so it is rejected under `!degrees` (by the theorem, not by evaluation) and accepted otherwise. -/
+example : evalExpr TAG_DEGREES (bytes "deg(90) + 90") = .err .ambiguousMix 0 :=
+  mixed_units_error _ exMixed (exMixed_parses _) (by decide) (by decide)
+example : ∃ v, evalExpr TAG_RADIANS (bytes "deg(90) + 90") = .ok v ∧ topValue TAG_RADIANS exMixed.eval = some v :=
+  accepted_unless_mixed TAG_RADIANS _ exMixed (exMixed_parses _) (by decide)
+
+/-- (E) a scalar can have two different trees (the blank of ` 90` belongs to the unary or to the primary);
+`parse_eval_unique` says they evaluate alike. -/
+example :
+    Parses 0 (bytes " 90") (.term (.un (.mk [32] [] (n90 [])))) ∧
+    Parses 0 (bytes " 90") (.term (.un (.mk [] [] (n90 [32])))) ∧
+    Expr.term (.un (.mk [32] [] (n90 []))) ≠ Expr.term (.un (.mk [] [] (n90 [32]))) := by
+  refine ⟨⟨[], [], by decide, by decide, by decide, ?_, by decide⟩,
+    ⟨[], [], by decide, by decide, by decide, ?_, by decide⟩, by simp [n90]⟩
+  · simp only [n90, Expr.lexOk, Term.lexOk, Unary.lexOk, Primary.lexOk]
+    exact ⟨by decide, by decide, tok90 _ _ _ (by simp [StopsToken])⟩
+  · simp only [n90, Expr.lexOk, Term.lexOk, Unary.lexOk, Primary.lexOk]
+    exact ⟨by decide, by decide, tok90 _ _ _ (by simp [StopsToken])⟩
+
+/-! ## non-vacuity -/
 
 /-- (E) `1 + 2*(3 - 4/5)` is accepted and evaluates to 5.4 (bits of `5.4f64`). -/
 example : evalExpr 0 (bytes "1 + 2*(3 - 4/5)") = .ok (ofBits binary64 0x401599999999999A) := by decide
